@@ -32,7 +32,7 @@ FLOORS = {"quick": {"decisions": 40000, "back_to_back": 15000, "idle_then_arriva
                        "many_to_one_cases": 3000, "monitor_samples_strict": 100000, "monitor_samples_coincident": 4000,
                        "kind_SP": 2000, "kind_WFQ": 2000, "kind_VC": 2000, "kind_DRR": 2000, "kind_RR": 2000,
                        "kind_WRR": 2000}}
-KEYS = tuple(FLOORS["quick"].keys())
+KEYS = tuple(FLOORS["quick"].keys()) + ("downstream_transmissions", "fractional_size_cases")
 # floors for the situations added with the later rounds of seeded changes (evidence that they were really exercised)
 FLOORS["quick"].update({'echoed_arrivals_inside_next_hop_put': 4000, 'late_arrivals_inside_an_instant': 3000, 'store_as_next_hop_cases': 150})
 FLOORS["thorough"].update({'echoed_arrivals_inside_next_hop_put': 20000, 'late_arrivals_inside_an_instant': 15000, 'store_as_next_hop_cases': 750})
@@ -48,7 +48,11 @@ def ncases(tier):
 
 def gen_case(rng, i):
     kind = vs.KINDS[i % 6]
-    case = vs.gen_case(rng, kind)
+    if rng.random() < 0.1:
+        case = vs.gen_case(rng, kind, flavour="float", sizes=[100.5, 300.25, 40.75])        # sizes need not be whole numbers of bytes
+        case["fractional_sizes"] = True
+    else:
+        case = vs.gen_case(rng, kind)
     if kind == "RR" and rng.random() < 0.3 and len(case["cfg"]["table"]) >= 2:
         # a flow listed more than once in the round (a double share): [1, 2, 1]
         t = case["cfg"]["table"]
@@ -188,6 +192,15 @@ def run_case(case, stats):
         time_rules(run, stats, run.bad)
     if not run.viol and run.mon is not None:
         monitor_rules(run, stats, run.bad)
+    if not run.viol and run.ds_rate:
+        # the same packets then cross a second scheduler with another rate: 8*size/rate of THAT scheduler
+        eq = (lambda x, y: x == y) if case["flavour"] == "exact" else vnet.close
+        for s0, e0, size in run.ds_tx:
+            stats["downstream_transmissions"] += 1
+            if s0 is not None and not eq(e0 - s0, size * 8.0 / run.ds_rate) and not eq(e0, s0 + size * 8.0 / run.ds_rate):
+                run.bad("transmission-duration-wrong[second scheduler on the path]", "a transmission did not last exactly 8*size/rate",
+                        {"start": s0, "end": e0, "size": size, "rate": run.ds_rate})
+                break
     stats["counter_checks"] += run.counter_checks
     return run
 
@@ -199,6 +212,8 @@ def one_case(ctx, case):
     vs.count_features(ctx, run)
     cfg = case["cfg"]
     stats["kind_" + cfg["kind"]] += 1
+    if case.get("fractional_sizes"):
+        stats["fractional_size_cases"] += 1
     if cfg["cmap"] in ("mod2", "mod3") and cfg["kind"] in ("WFQ", "VC", "DRR") and len(cfg["classes"]) < len(cfg["flows"]):
         stats["many_to_one_cases"] += 1
     for k in KEYS:
